@@ -497,8 +497,11 @@ class Harness:
                 return so, co
         # ---- accepted update values (C05)
         res.stats["accept"] += 1
-        ex = rel([[so.data[j, 0]] for j in range(len(self.S))], [[u["x_post"][s]] for s in self.S])
-        eP = rel(co.data, u["P_post"])
+        # P - K H P and x + K(z-h) cancel: rounding is relative to the PRIOR's magnitude (and to |K (z-h)|), not to the small result
+        p_scale = 1.0 + max(float(np.max(np.abs(u["P_post"]))), float(np.max(np.abs(P_in)))) if P_in.size else 1.0
+        x_scale = 1.0 + max(abs(v) for v in u["x_post"].values()) + (float(np.max(np.abs(u["K"] @ u["inn"]))) if u["K"].size else 0.0)
+        ex = float(np.max(np.abs(np.array([[so.data[j, 0]] for j in range(len(self.S))]) - np.array([[u["x_post"][s]] for s in self.S])))) / x_scale
+        eP = (float(np.max(np.abs(co.data - u["P_post"]))) / p_scale) if P_in.size else 0.0
         self.worst["x"], self.worst["P"] = max(self.worst["x"], ex), max(self.worst["P"], eP)
         tag = f"m{'>=2' if m > 1 else '=1'}"
         if ex > TOL_X:
